@@ -91,14 +91,27 @@ pub fn load_known() -> Vec<Known> {
     out
 }
 
-/// Run a command with a watchdog; None = timed out.
+/// Run a command with a watchdog; None = timed out.  stdout / stderr are drained by two
+/// reader threads while the child runs (a child that fills a pipe would otherwise block
+/// forever -- libFuzzer prints one line per new input).
 pub fn run_with_timeout(mut cmd: Command, secs: u64) -> Option<std::process::Output> {
     use std::io::Read;
     let mut child = cmd.stdout(std::process::Stdio::piped()).stderr(std::process::Stdio::piped()).spawn().ok()?;
+    let drain = |r: Option<Box<dyn Read + Send>>| {
+        std::thread::spawn(move || {
+            let mut buf = vec![];
+            if let Some(mut r) = r {
+                let _ = r.read_to_end(&mut buf);
+            }
+            buf
+        })
+    };
+    let h_out = drain(child.stdout.take().map(|o| Box::new(o) as Box<dyn Read + Send>));
+    let h_err = drain(child.stderr.take().map(|e| Box::new(e) as Box<dyn Read + Send>));
     let t0 = Instant::now();
-    loop {
+    let status = loop {
         match child.try_wait() {
-            Ok(Some(_)) => break,
+            Ok(Some(st)) => break st,
             Ok(None) => {
                 if t0.elapsed().as_secs() > secs {
                     let _ = child.kill();
@@ -109,16 +122,9 @@ pub fn run_with_timeout(mut cmd: Command, secs: u64) -> Option<std::process::Out
             }
             Err(_) => return None,
         }
-    }
-    let mut out = vec![];
-    let mut err = vec![];
-    if let Some(mut o) = child.stdout.take() {
-        let _ = o.read_to_end(&mut out);
-    }
-    if let Some(mut e) = child.stderr.take() {
-        let _ = e.read_to_end(&mut err);
-    }
-    let status = child.wait().ok()?;
+    };
+    let out = h_out.join().unwrap_or_default();
+    let err = h_err.join().unwrap_or_default();
     Some(std::process::Output { status, stdout: out, stderr: err })
 }
 
@@ -395,17 +401,47 @@ fn msg_family_opts(ctx: &Ctx, opts: GenOpts, family: &'static str, rule: &'stati
 
 /// Engine E5: a bounded libFuzzer campaign over a hand-written fixture (thorough tier only).
 /// The semantic oracle lives inside the target; a crash artifact is the replay file.
-pub fn fuzz_campaign(ctx: &Ctx, target: &str, runs: u64, out: &mut Outcome) {
+/// Build one fuzz target (cargo-fuzz, nightly, ASan) and return its executable; the campaign
+/// and replays then run the binary directly, so the watchdog kills the fuzzer itself.
+fn fuzz_exe(target: &str) -> Result<PathBuf, String> {
     let fuzz_dir = format!("{}/engine/fuzz", corpus::VERIF);
     let tdir = corpus::target_dir("fuzz");
+    let o = Command::new("cargo")
+        .args(["+nightly", "fuzz", "build", "--fuzz-dir", &fuzz_dir, "--target-dir"])
+        .arg(&tdir)
+        .arg(target)
+        .env("CARGO_NET_OFFLINE", "true")
+        .output()
+        .map_err(|e| e.to_string())?;
+    if !o.status.success() {
+        let err = String::from_utf8_lossy(&o.stderr);
+        return Err(format!("fuzz target {target} does not build: {}", err.lines().filter(|l| l.starts_with("error")).take(3).collect::<Vec<_>>().join(" | ")));
+    }
+    let exe = tdir.join("x86_64-unknown-linux-gnu").join("release").join(target);
+    if exe.exists() {
+        Ok(exe)
+    } else {
+        Err(format!("fuzz target {target}: no executable at {}", exe.display()))
+    }
+}
+
+pub fn fuzz_campaign(ctx: &Ctx, target: &str, runs: u64, out: &mut Outcome) {
+    let fuzz_dir = format!("{}/engine/fuzz", corpus::VERIF);
+    let exe = match fuzz_exe(target) {
+        Ok(e) => e,
+        Err(e) => {
+            out.inconclusive = Some(e);
+            return;
+        }
+    };
     // replay of a saved artifact
     if let Some(r) = &ctx.replay {
         let name = r.file_name().map(|n| n.to_string_lossy().to_string()).unwrap_or_default();
         if !name.starts_with(&format!("fuzz-{target}-")) {
             return;
         }
-        let mut cmd = Command::new("cargo");
-        cmd.args(["+nightly", "fuzz", "run", "--fuzz-dir", &fuzz_dir, "--target-dir"]).arg(&tdir).arg(target).arg(r).env("CARGO_NET_OFFLINE", "true").env("RUST_BACKTRACE", "0");
+        let mut cmd = Command::new(&exe);
+        cmd.arg(r).env("RUST_BACKTRACE", "0");
         match run_with_timeout(cmd, 1800) {
             Some(o) if o.status.success() => {}
             Some(_) => out.violations.push((format!("fuzz:{target}"), format!("fuzz target {target} fails on the saved input"), r.clone())),
@@ -424,19 +460,14 @@ pub fn fuzz_campaign(ctx: &Ctx, target: &str, runs: u64, out: &mut Outcome) {
         }
     }
     let prefix = format!("{}/fuzz-{target}-", ctx.replay_dir().display());
-    let mut cmd = Command::new("cargo");
-    cmd.args(["+nightly", "fuzz", "run", "--fuzz-dir", &fuzz_dir, "--target-dir"])
-        .arg(&tdir)
-        .arg(target)
-        .arg(&corpus_dir)
-        .arg("--")
+    let mut cmd = Command::new(&exe);
+    cmd.arg(&corpus_dir)
         .arg(format!("-runs={runs}"))
         .arg(format!("-seed={}", (ctx.seed % 0x7fff_ffff).max(1)))
         .arg("-len_control=0")
         .arg("-max_len=512")
         .arg("-timeout=30")
         .arg(format!("-artifact_prefix={prefix}"))
-        .env("CARGO_NET_OFFLINE", "true")
         .env("RUST_BACKTRACE", "0");
     let Some(o) = run_with_timeout(cmd, 3 * 3600) else {
         out.inconclusive = Some(format!("fuzz campaign {target} hit the watchdog (inconclusive, not a violation)"));
